@@ -2548,6 +2548,10 @@ def ps_cases(ctx, n_random):
          'out': 'fewer-parts'},
         {'op': 'into', 'name': 'negative', 'spec': ['N', [L3, L2], None],
          'vals': [['1', '2', '3'], ['4', '5']], 'out': 'leaf-size'},
+        {'op': 'into', 'name': 'add', 'spec': ['N', [P2, L2], [2.0, 3.0]], 'scalar': '5/2',
+         'vals': [[['1', '2', '3'], ['-1/2', '5', '6']], ['7', '-2']], 'out': 'disjoint'},
+        {'op': 'into', 'name': 'multiply', 'spec': P2, 'scalar': '-3/2',
+         'vals': [['1', '2', '3'], ['4', '5', '6']], 'out': 'more-parts'},
         {'op': 'into', 'name': 'negative', 'spec': ['N', [P2, L3], None],
          'vals': [[['1', '2', '3'], ['4', '5', '6']], ['7', '8', '9']], 'out': 'structure'},
         {'op': 'red', 'name': 'min', 'spec': ['N', [['L', 'rn', [0]], L3], None],
@@ -2599,6 +2603,13 @@ def ps_cases(ctx, n_random):
                 continue
             out = rng.choice(['disjoint', 'disjoint', 'inplace', 'alias-swap', 'more-parts',
                               'fewer-parts'])
+            if rng.random() < 0.35:      # same volume: some of the cases take the scalar branch
+                bname = rng.choice(PS_BINARY)
+                vp = PS_PROD_VALS if bname == 'multiply' else pool
+                yield {'stream': 'psvalue', 'op': 'into', 'name': bname, 'spec': spec,
+                       'vals': ps_vals(rng, spec, vp), 'out': out,
+                       'scalar': core.fs(rng.choice(vp))}
+                continue
             yield {'stream': 'psvalue', 'op': 'into', 'name': rng.choice(PS_UNARY),
                    'spec': spec, 'vals': ps_vals(rng, spec, pool), 'out': out}
 
@@ -2788,10 +2799,21 @@ def ps_run_case(case):
         def heap():
             return '|'.join(core.fl(np.asarray(m).ravel()) for m in objs)
         before = [np.asarray(m).ravel().copy() for m in objs]
-        line = 'psinto name={} heap={} x={} out={}'.format(name, heap(), benc(x, spec),
-                                                            benc(o, ospec))
-        res = ps_call(lambda: getattr(x.ufuncs, name)(out=o))
-        hits.append('psvalue/into/{}/{}'.format(how, res[0]))
+        sc = case.get('scalar')
+        if sc is None:
+            line = 'psinto name={} heap={} x={} out={}'.format(name, heap(), benc(x, spec),
+                                                                benc(o, ospec))
+            res = ps_call(lambda: getattr(x.ufuncs, name)(out=o))
+            hits.append('psvalue/into/{}/{}'.format(how, res[0]))
+            ref_into = getattr(np, name)(flat0)
+        else:
+            # scalar / out branch of the (2,1) wrapper: px.ufuncs.<binary>(c, out=o)
+            cval = float(Fraction(sc))
+            line = 'psinto name={} arg=s:{} heap={} x={} out={}'.format(
+                name, core.fs(Fraction(sc)), heap(), benc(x, spec), benc(o, ospec))
+            res = ps_call(lambda: getattr(x.ufuncs, name)(cval, out=o))
+            hits.append('psvalue/into-scalar/{}/{}'.format(how, res[0]))
+            ref_into = getattr(np, name)(flat0, cval)
         out_ids = set(ident(l) for l in ps_leaf_objs(o, ospec))
         if res[0] == 'ok':
             impl = 'ok ' + heap()
@@ -2814,7 +2836,7 @@ def ps_run_case(case):
                     problems.append(('out-structure-not-checked', 'out of another structure '
                                      'accepted'))
             elif how in ('disjoint', 'inplace'):
-                if not ps_same_floats(ps_flat(o, ospec), getattr(np, name)(flat0)):
+                if not ps_same_floats(ps_flat(o, ospec), ref_into):
                     problems.append(('out-contents', 'out does not hold np.{}(values of x)'.format(
                         name)))
                 if how == 'disjoint' and not ps_same_floats(ps_flat(x, spec), flat0):
@@ -2838,7 +2860,7 @@ def ps_run_case(case):
 def ps_key(case, code):
     return 'psvalue op={} name={} shape={}{} code={}'.format(
         case['op'], case['name'], ps_shape_str(case['spec']),
-        ' out=' + case['out'] if 'out' in case else
+        ' out=' + case['out'] + ('+scalar' if case.get('scalar') else '') if 'out' in case else
         (' arg=' + case['arg']['kind'] if 'arg' in case else ''), code)
 
 
@@ -2855,7 +2877,9 @@ PSVALUE_STRATA = (
      'psvalue/array/tensor-plus-power'] +
     ['psvalue/outbranch/' + f for f in ('same', 'scalar', 'inplace', 'sub', 'more-parts',
                                          'fewer-parts', 'twoout-fresh', 'twoout-given',
-                                         'twoout-mixed', 'twoout-tuple', 'twoout-tuple-form')])
+                                         'twoout-mixed', 'twoout-tuple', 'twoout-tuple-form')] +
+    ['psvalue/into-scalar/' + f for f in ('disjoint/ok', 'inplace/ok', 'alias-swap/ok',
+                                           'more-parts/err', 'fewer-parts/err')])
 
 
 def run_psvalue(ctx, V, n_random):
